@@ -72,7 +72,16 @@ class DirState:
         self.clock += 7
         return self.clock
 
+    malformed_ok = False
+
     def mutation(self, rng):
+        if self.malformed_ok and rng.random() < 0.2:
+            # a link file the parser cannot make sense of (a non-numeric port, a bare Type=): generating the listing fails
+            self.names = True
+            n = rng.choice(sorted(self.files | self.dirs)) if (self.files | self.dirs) else "a.txt"
+            return "names-malformed", [{"do": "write", "path": "d/.names", "data": rng.choice([
+                "Path=./%s\nName=Bad port\nPort=gopher\n" % n, "Path=./%s\nName=Bare type\nType=\n" % n,
+                "Name=Elsewhere\nPath=/other\nHost=h.example\nPort=7O\nType=1\n"])}]
         for _ in range(20):
             kind = rng.choice(["create", "create", "delete", "rename", "names", "names", "abstract", "abstract",
                                "mkdir", "rmdir", "rewrite", "inplace", "inplace", "inplace"])
@@ -186,8 +195,9 @@ class DirState:
 TICKS = {0: [0, 1, 2], 2: [0, 1, 1, 1, 2, 3], 180: [1, 59, 60, 90, 120, 179, 180, 181, 240]}
 
 
-def gen_history(rng, life, nops):
+def gen_history(rng, life, nops, malformed=False):
     st = DirState()
+    st.malformed_ok = malformed
     ops = []
     kinds = []
     for _ in range(nops):
@@ -203,6 +213,10 @@ def gen_history(rng, life, nops):
             ops.append({"op": "probe", "key": rng.choice(PROBES)[0]})
         elif x < 0.74:
             ops.append({"op": "damage", "frac": rng.choice([0.0, rng.random(), rng.random(), 0.999])})
+        elif x < 0.79:
+            # a listing whose cache write fails after a few bytes (disk or quota full, EFBIG, EIO)
+            ops.append({"op": "list", "key": rng.choice(PROTOKEYS)[0],
+                        "fault": {"room": rng.choice([0, 0, 1, 37, 1500]), "errno": rng.choice([28, 122, 27, 5])}})
         else:
             ops.append({"op": "list", "key": rng.choice(PROTOKEYS)[0]})
     return ops
@@ -236,6 +250,11 @@ def scripted(life):
                M(inplace), T(life), P("https-head"), T(max(life - 1, 0)), L("wap"), T(1), L("wap")])
     hs.append([L("gopher"), P("http-head"), T(max(life - 1, 0)), P("http-head"), T(1), M(m3), L("gopher"),
                T(life), P("sgopherplus!"), P("http-head"), P("http-head"), T(max(life - 1, 0)), L("gemini")])
+    bad = [{"do": "write", "path": "d/.names", "data": "Path=./a.txt\nName=Bad port\nPort=gopher\n"}]
+    good = [{"do": "write", "path": "d/.names", "data": "Path=./a.txt\nName=Good again\n"}]
+    # the listing cannot be generated for a while: within the lifetime the cached one may be served, afterwards not
+    hs.append([L("gopher"), M(m1), M(bad), L("http"), T(max(life - 1, 0)), L("gopher"), T(1), L("gopher"), T(life), L("wap"),
+               M(good), L("gopher"), L("http")])
     half = max(life // 2, 1)
     hs.append([L("gopher"), T(half), L("gopher"), M(m1), T(max(life - half, 0)), L("gopher"), L("http"), T(half), M(m2), L("gopherplus$"),
                T(max(life - half, 0)), L("wap")])
@@ -297,7 +316,7 @@ def coq_case(life, events, snaps, rep=True):
         elif e["kind"] == "damage":
             kops.append("KDamage")
         else:
-            kops.append("KList %d" % KEYIDX[e["key"]])
+            kops.append(("KListF %d" if e.get("fault") else "KList %d") % KEYIDX[e["key"]])
             cands = [i for i, refs in enumerate(snaps) if refs[e["key"]]["hash"] == e["hash"]]
             obs.append("([%s], %d)" % ("; ".join(map(str, cands)), cls_of(e)))
     return "((%d%%Z, %d%%Z, 0, %s), [%s], [%s])" % (life, t0, "true" if rep else "false", "; ".join(kops), "; ".join(obs))
@@ -329,15 +348,18 @@ def oracle(life, events, snaps):
         t = e["tv"]
         key = e["key"]
         if e["kind"] == "probe":
-            if e["crashed"] or e["len"] == 0:
+            ungeneratable = any(r.get("crashed") for r in snaps[current].values())
+            if (e["crashed"] or e["len"] == 0) and not ungeneratable:
                 bad.append(("unanswered", i, "non-listing request %s got no reply (exception %r, log %r)" % (key, e["exc"], e["log"])))
             if e["opened_w"]:
                 last_write = (current, t)       # (a request that saves without listing would be a writer)
             continue
-        if e["crashed"]:
+        # a request may fail exactly when (and as) generating the listing of that directory content fails
+        match = [s for s, refs in enumerate(snaps) if refs[key]["hash"] == e["hash"]
+                 and bool(refs[key].get("crashed")) == bool(e["crashed"])]
+        if e["crashed"] and not match:
             bad.append(("unanswered", i, "listing request got no reply (exception %r, log %r)" % (e["exc"], e["log"])))
             continue
-        match = [s for s, refs in enumerate(snaps) if refs[key]["hash"] == e["hash"]]
         # (A) the listing reflects the directory as it was at most `life` ago
         ok = False
         for s in match:
@@ -356,9 +378,10 @@ def oracle(life, events, snaps):
                         % (match, life, current)))
         # (B) served from the cache = what the writer generated; no refresh; never used when older than life
         if not e["opened_w"]:
-            if last_write is None or e["before"] is None:
+            if last_write is None or e["before"] is None or not e["opened_r"]:
+                # nothing was read from a cache file: the answer was generated (or failed to be) from the directory now
                 if current not in match:
-                    bad.append(("not-transparent", i, "no cache entry was ever written, yet the listing is not the current one"))
+                    bad.append(("not-transparent", i, "no cache entry was read, yet the answer is not the current one"))
             else:
                 ws, wt = last_write
                 if ws not in match:
@@ -374,7 +397,7 @@ def oracle(life, events, snaps):
             if current not in match and match:
                 bad.append(("stale-beyond-lifetime" if life else "zero-lifetime-stale", i,
                             "the request regenerated the listing but it is not the current directory content"))
-            last_write = (current, t)
+            last_write = (current, t) if not e.get("fault") else None     # a failed write leaves no usable entry
     return bad
 
 
@@ -407,7 +430,12 @@ def run_histories(chk, jobs, found_flag):
 def evaluate(chk, done, tier):
     """K + oracle over the executed histories.  Returns (found_concrete, k_broken, k_detail)."""
     found = False
-    cases = [coq_case(job["life"], events, snaps) for job, events, snaps in done]
+    # the model's gen is total: histories in which generating a listing fails (unparsable link file) are judged by the
+    # oracle only
+    def k_ok(snaps):
+        return not any(r.get("crashed") for refs in snaps for r in refs.values())
+    done_k = [x for x in done if k_ok(x[2])]
+    cases = [coq_case(job["life"], events, snaps) for job, events, snaps in done_k]
     mism, err, nsh = coq_eval("C10", "k_hist", "Lib.Str Corr.K10", "chk_hist", cases, shard=40)
     stats = {"histories": len(done), "operations": 0, "listings": 0, "hits": 0, "misses": 0, "expiries": 0,
              "cross_protocol_hits": 0, "stale_hits": 0, "hits_after_gopherplus_dollar_writer": 0, "mutations": 0,
@@ -457,7 +485,8 @@ def evaluate(chk, done, tier):
                           tag=tag)
     chk.coverage["correspondence"] = {"cases": len(cases), "shards": nsh, "mismatches": len(mism),
                                       "errors": [err] if err else [], **stats}
-    detail = {"mismatching_histories": [{"life": done[i][0]["life"], "ops": done[i][0]["ops"], "case": cases[i][:3000]}
+    chk.coverage["correspondence"]["histories_with_ungeneratable_listings_oracle_only"] = len(done) - len(done_k)
+    detail = {"mismatching_histories": [{"life": done_k[i][0]["life"], "ops": done_k[i][0]["ops"], "case": cases[i][:3000]}
                                         for i in mism[:5]], "errors": err}
     return found, bool(mism or err), detail
 
@@ -471,8 +500,9 @@ def run(tier):
     for life in (0, 2, 180):
         for ops in scripted(life):
             jobs.append(history_job(life, ops))
-        for _ in range(per_life):
-            jobs.append(history_job(life, gen_history(rng, life, rng.randrange(5, 41))))
+        for i in range(per_life):
+            # every 5th history may also leave an unparsable link file behind (the listing then cannot be generated)
+            jobs.append(history_job(life, gen_history(rng, life, rng.randrange(5, 41), malformed=(i % 5 == 4))))
     done, dropped = run_histories(chk, jobs, False)
     found, k_broken, k_detail = evaluate(chk, done, tier)
     chk.coverage["correspondence"]["histories_dropped_for_timing"] = dropped
